@@ -1,10 +1,14 @@
 // Package c04 joins the real client transport with the real server middleware (property C04).
 //
-// A case is a generated API description (several operations), a call of one operation with a
-// value for each of its parameters, and a response the handler is told to return.  The
-// client (client.Runtime.Submit) talks to an httptest.Server running
-// middleware.Serve(doc, untyped API); the untyped handler logs what it received, the client's
-// response reader logs what it saw.  The TLA+ trace spec decides.
+// A case is a generated API description (several operations) and a SESSION: one or more calls,
+// each of one operation with a value for each of its parameters, the media type to send the
+// body with and a response the handler is told to return.  All calls of a session go through
+// ONE client.Runtime to ONE server (client.Runtime.Submit -> httptest.Server running
+// middleware.Serve(doc, untyped API)): single-step sessions use a long-lived server shared by
+// all cases with the same API, multi-step sessions a server built for the case, so that the
+// case is the whole history of that server.  The untyped handler logs what it received, the
+// client's response reader logs what it saw, one `exchange` event per call.  The TLA+ trace
+// spec decides.
 package c04
 
 import (
@@ -16,6 +20,7 @@ import (
 	"io"
 	"net/http"
 	"net/http/httptest"
+	"os"
 	"path/filepath"
 	"sort"
 	"strconv"
@@ -49,8 +54,8 @@ type Seg struct {
 
 type Param struct {
 	Name string
-	Loc  string // path | query | header | urlform | multiform | file | body
-	Kind string // scalar | multi | file | body
+	Loc  string // path | query | header | urlform | multiform | form (either, by the media type of the call) | file | body
+	Kind string // scalar | multi | file | body (JSON object / array) | strbody (a string, sent as JSON or as text)
 	Type string // string | integer | boolean | object | array
 }
 
@@ -59,7 +64,8 @@ type Op struct {
 	Method   string
 	Template []Seg
 	Params   []Param
-	Consumes string
+	Consumes string   // the media type a call uses unless its step says otherwise
+	Alt      []string // further media types the operation consumes
 	Produces []string
 	Secured  bool
 	Success  int // declared success status (used when the handler returns plain data)
@@ -73,10 +79,12 @@ type API struct {
 type Arg struct {
 	Name string
 	Vs   []string // scalar: one; multi: any number
-	// file
+	// file: the underlying file is blob(Len, Seed); it is handed over as a Src positioned at Off
 	FileName string
 	Len      int
 	Seed     int
+	Src      string // reader (runtime.NamedReader, not seekable) | memseek (in-memory, seekable) | osfile (*os.File) | typed (seekable, reports its ContentType)
+	Off      int
 	// body
 	Body string // JSON text of the value
 }
@@ -95,12 +103,19 @@ type Resp struct {
 	None bool // no body at all (responder only)
 }
 
+type Step struct {
+	Op    string
+	Args  []Arg
+	Auth  string // none | apikey | signing
+	Resp  Resp
+	Media string // media type of the request body ("" = the operation has none)
+	Debug bool   // Runtime.Debug is on for this call (dumps go to a silent logger)
+}
+
 type Case struct {
-	API  API
-	Op   string
-	Args []Arg
-	Auth string // none | apikey | signing
-	Resp Resp
+	API    API
+	Shared bool // served by the long-lived server of this API (single calls); otherwise by a server built for the case
+	Steps  []Step
 }
 
 func (p Param) JSON() M { return M{"name": p.Name, "loc": p.Loc, "kind": p.Kind, "type": p.Type} }
@@ -120,19 +135,24 @@ func (c Case) JSON() M {
 		for _, p := range o.Params {
 			ps = append(ps, p.JSON())
 		}
-		ops = append(ops, M{"id": o.ID, "method": o.Method, "template": tm, "params": ps, "consumes": o.Consumes,
+		ops = append(ops, M{"id": o.ID, "method": o.Method, "template": tm, "params": ps, "consumes": o.Consumes, "alt": trace.S(o.Alt),
 			"produces": trace.S(o.Produces), "secured": o.Secured, "success": o.Success})
 	}
-	args := make([]M, 0)
-	for _, a := range c.Args {
-		args = append(args, M{"name": a.Name, "vs": trace.BB(a.Vs), "filename": trace.B(a.FileName), "len": a.Len, "seed": a.Seed, "body": trace.B(a.Body)})
+	steps := make([]M, 0)
+	for _, st := range c.Steps {
+		args := make([]M, 0)
+		for _, a := range st.Args {
+			args = append(args, M{"name": a.Name, "vs": trace.BB(a.Vs), "filename": trace.B(a.FileName), "len": a.Len, "seed": a.Seed,
+				"src": a.Src, "off": a.Off, "body": trace.B(a.Body)})
+		}
+		hdrs := make([]M, 0)
+		for _, h := range st.Resp.Hdrs {
+			hdrs = append(hdrs, M{"k": h.K, "vs": trace.BB(h.Vs)})
+		}
+		steps = append(steps, M{"op": st.Op, "args": args, "auth": st.Auth, "media": st.Media, "debug": st.Debug,
+			"resp": M{"mode": st.Resp.Mode, "code": st.Resp.Code, "hdrs": hdrs, "len": st.Resp.Len, "seed": st.Resp.Seed, "none": st.Resp.None}})
 	}
-	hdrs := make([]M, 0)
-	for _, h := range c.Resp.Hdrs {
-		hdrs = append(hdrs, M{"k": h.K, "vs": trace.BB(h.Vs)})
-	}
-	return M{"api": M{"base": c.API.Base, "ops": ops}, "op": c.Op, "args": args, "auth": c.Auth,
-		"resp": M{"mode": c.Resp.Mode, "code": c.Resp.Code, "hdrs": hdrs, "len": c.Resp.Len, "seed": c.Resp.Seed, "none": c.Resp.None}}
+	return M{"api": M{"base": c.API.Base, "ops": ops}, "shared": c.Shared, "steps": steps}
 }
 
 func caseFrom(d M) Case {
@@ -142,6 +162,9 @@ func caseFrom(d M) Case {
 	for _, o := range drv.List(a["ops"]) {
 		m := drv.Map(o)
 		op := Op{ID: drv.Str(m["id"]), Method: drv.Str(m["method"]), Consumes: drv.Str(m["consumes"]), Secured: drv.Bool(m["secured"]), Success: drv.Int(m["success"])}
+		for _, p := range drv.List(m["alt"]) {
+			op.Alt = append(op.Alt, drv.Str(p))
+		}
 		for _, s := range drv.List(m["template"]) {
 			sm := drv.Map(s)
 			if drv.Str(sm["k"]) == "ph" {
@@ -159,25 +182,30 @@ func caseFrom(d M) Case {
 		}
 		c.API.Ops = append(c.API.Ops, op)
 	}
-	c.Op = drv.Str(d["op"])
-	for _, x := range drv.List(d["args"]) {
-		m := drv.Map(x)
-		arg := Arg{Name: drv.Str(m["name"]), FileName: trace.Str(m["filename"]), Len: drv.Int(m["len"]), Seed: drv.Int(m["seed"]), Body: trace.Str(m["body"])}
-		for _, v := range drv.List(m["vs"]) {
-			arg.Vs = append(arg.Vs, trace.Str(v))
+	c.Shared = drv.Bool(d["shared"])
+	for _, sx := range drv.List(d["steps"]) {
+		sm := drv.Map(sx)
+		st := Step{Op: drv.Str(sm["op"]), Auth: drv.Str(sm["auth"]), Media: drv.Str(sm["media"]), Debug: drv.Bool(sm["debug"])}
+		for _, x := range drv.List(sm["args"]) {
+			m := drv.Map(x)
+			arg := Arg{Name: drv.Str(m["name"]), FileName: trace.Str(m["filename"]), Len: drv.Int(m["len"]), Seed: drv.Int(m["seed"]),
+				Src: drv.Str(m["src"]), Off: drv.Int(m["off"]), Body: trace.Str(m["body"])}
+			for _, v := range drv.List(m["vs"]) {
+				arg.Vs = append(arg.Vs, trace.Str(v))
+			}
+			st.Args = append(st.Args, arg)
 		}
-		c.Args = append(c.Args, arg)
-	}
-	c.Auth = drv.Str(d["auth"])
-	r := drv.Map(d["resp"])
-	c.Resp = Resp{Mode: drv.Str(r["mode"]), Code: drv.Int(r["code"]), Len: drv.Int(r["len"]), Seed: drv.Int(r["seed"]), None: drv.Bool(r["none"])}
-	for _, h := range drv.List(r["hdrs"]) {
-		m := drv.Map(h)
-		hd := Hdr{K: drv.Str(m["k"])}
-		for _, v := range drv.List(m["vs"]) {
-			hd.Vs = append(hd.Vs, trace.Str(v))
+		r := drv.Map(sm["resp"])
+		st.Resp = Resp{Mode: drv.Str(r["mode"]), Code: drv.Int(r["code"]), Len: drv.Int(r["len"]), Seed: drv.Int(r["seed"]), None: drv.Bool(r["none"])}
+		for _, h := range drv.List(r["hdrs"]) {
+			m := drv.Map(h)
+			hd := Hdr{K: drv.Str(m["k"])}
+			for _, v := range drv.List(m["vs"]) {
+				hd.Vs = append(hd.Vs, trace.Str(v))
+			}
+			st.Resp.Hdrs = append(st.Resp.Hdrs, hd)
 		}
-		c.Resp.Hdrs = append(c.Resp.Hdrs, hd)
+		c.Steps = append(c.Steps, st)
 	}
 	return c
 }
@@ -204,7 +232,7 @@ func (p Param) spec() M {
 		m["in"], m["required"] = "path", true
 	case "query", "header":
 		m["in"] = p.Loc
-	case "urlform", "multiform", "file":
+	case "urlform", "multiform", "form", "file":
 		m["in"] = "formData"
 	case "body":
 		m["in"] = "body"
@@ -236,7 +264,7 @@ func (a API) doc() []byte {
 		op := M{"operationId": o.ID, "parameters": params, "produces": o.Produces,
 			"responses": M{strconv.Itoa(o.Success): M{"description": "ok"}, "default": M{"description": "other"}}}
 		if o.Consumes != "" {
-			op["consumes"] = []string{o.Consumes}
+			op["consumes"] = append([]string{o.Consumes}, o.Alt...)
 		}
 		if o.Secured {
 			op["security"] = []any{M{"key": []string{}}}
@@ -267,7 +295,7 @@ const secret = "s3cr3t token/+="
 
 type exchange struct {
 	mu        sync.Mutex
-	cs        *Case
+	step      *Step
 	handledOp string
 	received  []M
 	handler   M
@@ -365,7 +393,7 @@ func render(v any) []any {
 	case runtime.File:
 		b, _ := io.ReadAll(x.Data)
 		x.Data.Close()
-		return []any{trace.B(x.Header.Filename), trace.B(sha(b))}
+		return []any{trace.B(x.Header.Filename), contentID(b)}
 	case nil:
 		return []any{}
 	default:
@@ -373,17 +401,56 @@ func render(v any) []any {
 	}
 }
 
+// contentID identifies the content of a file: small contents are given as they are (the spec computes
+// what an upload source at an offset supplies), large ones by digest.
+const smallFile = 48
+
+func contentID(b []byte) []int {
+	if len(b) <= smallFile {
+		return trace.B(string(b))
+	}
+	return trace.B(sha(b))
+}
+
+// textAny is runtime.TextConsumer for the untyped binder: a body parameter whose schema is a string is
+// bound to an interface{} target, which the text consumer itself does not fill.
+var textAny = runtime.ConsumerFunc(func(r io.Reader, target interface{}) error {
+	if t, ok := target.(*interface{}); ok {
+		var sv string
+		if err := runtime.TextConsumer().Consume(r, &sv); err != nil {
+			return err
+		}
+		*t = sv
+		return nil
+	}
+	return runtime.TextConsumer().Consume(r, target)
+})
+
 type built struct {
 	handler http.Handler
 }
 
 var apiCache = map[string]*built{}
 
+// build returns the long-lived server of an API (shared by all single-call cases).
 func build(a API) (*built, error) {
 	raw := a.doc()
 	if b, ok := apiCache[string(raw)]; ok {
 		return b, nil
 	}
+	b, err := buildFresh(a, raw)
+	if err != nil {
+		return nil, err
+	}
+	if len(apiCache) > 512 {
+		apiCache = map[string]*built{}
+	}
+	apiCache[string(raw)] = b
+	return b, nil
+}
+
+// buildFresh builds a server (analyzed document, untyped API, middleware.Context, router) that has served nothing yet.
+func buildFresh(a API, raw []byte) (*built, error) {
 	ld, err := loads.Analyzed(json.RawMessage(raw), "")
 	if err != nil {
 		return nil, err
@@ -392,6 +459,7 @@ func build(a API) (*built, error) {
 	noop := runtime.ConsumerFunc(func(io.Reader, interface{}) error { return nil })
 	api.RegisterConsumer("application/x-www-form-urlencoded", noop)
 	api.RegisterConsumer("multipart/form-data", noop)
+	api.RegisterConsumer("text/plain", textAny)
 	api.RegisterProducer("text/plain", runtime.TextProducer())
 	api.RegisterProducer("application/octet-stream", runtime.ByteStreamProducer())
 	api.RegisterAuth("key", security.APIKeyAuth("X-Token", "header", func(tok string) (interface{}, error) {
@@ -415,7 +483,7 @@ func build(a API) (*built, error) {
 			}
 			cur.mu.Lock()
 			cur.handledOp, cur.received = o.ID, rec
-			r := cur.cs.Resp
+			r := cur.step.Resp
 			cur.mu.Unlock()
 			if r.Mode == "plain" {
 				// the negotiated type is not known here: plain data is offered for single-produces operations only
@@ -449,10 +517,6 @@ func build(a API) (*built, error) {
 		cur.mu.Unlock()
 		inner.ServeHTTP(w, r)
 	})}
-	if len(apiCache) > 512 {
-		apiCache = map[string]*built{}
-	}
-	apiCache[string(raw)] = b
 	return b, nil
 }
 
@@ -477,7 +541,7 @@ func server() *httptest.Server {
 	return srv
 }
 
-// ---- one exchange ---------------------------------------------------------------------
+// ---- one session ----------------------------------------------------------------------
 
 type signing struct{}
 
@@ -487,40 +551,152 @@ func (signing) AuthenticateRequest(r runtime.ClientRequest, _ strfmt.Registry) e
 	return r.SetHeaderParam("X-Token", secret)
 }
 
+type silentLogger struct{}
+
+func (silentLogger) Printf(string, ...interface{}) {}
+func (silentLogger) Debugf(string, ...interface{}) {}
+
+// upload sources ------------------------------------------------------------------------
+
+// memFile is an in-memory file: a NamedReadCloser that can seek.
+type memFile struct {
+	*bytes.Reader
+	name string
+}
+
+func (f memFile) Name() string { return f.name }
+func (f memFile) Close() error { return nil }
+
+// typedFile also reports its content type (nothing is sniffed).
+type typedFile struct{ memFile }
+
+func (typedFile) ContentType() string { return "application/x-c04" }
+
+// source opens the upload source of a file argument positioned at its offset, as the caller hands it over.
+func source(a Arg, cleanup *[]string) (runtime.NamedReadCloser, error) {
+	content := blob(a.Len, a.Seed, false)
+	off := a.Off
+	if off > len(content) {
+		off = len(content)
+	}
+	switch a.Src {
+	case "memseek", "typed":
+		f := memFile{Reader: bytes.NewReader(content), name: a.FileName}
+		if _, err := io.CopyN(io.Discard, f, int64(off)); err != nil { // the caller has read the beginning
+			return nil, err
+		}
+		if a.Src == "typed" {
+			return typedFile{f}, nil
+		}
+		return f, nil
+	case "osfile":
+		dir, err := os.MkdirTemp("", "bH-c04-")
+		if err != nil {
+			return nil, err
+		}
+		*cleanup = append(*cleanup, dir)
+		name := filepath.Join(dir, filepath.Base(a.FileName))
+		if err := os.WriteFile(name, content, 0o600); err != nil {
+			return nil, err
+		}
+		f, err := os.Open(name)
+		if err != nil {
+			return nil, err
+		}
+		if _, err := f.Seek(int64(off), io.SeekStart); err != nil {
+			return nil, err
+		}
+		return f, nil
+	}
+	return runtime.NamedReader(a.FileName, bytes.NewReader(content[off:])), nil
+}
+
+func mediaName(mt string) string {
+	switch mt {
+	case mJSON:
+		return "json"
+	case mText:
+		return "text"
+	case mForm:
+		return "urlencoded"
+	case mMulti:
+		return "multipart"
+	}
+	return "none"
+}
+
 func execute(c *drv.Ctx, d M) bool {
 	cs := caseFrom(d)
-	var op *Op
-	for i := range cs.API.Ops {
-		if cs.API.Ops[i].ID == cs.Op {
-			op = &cs.API.Ops[i]
-		}
+	noEvent := func(i int, st Step) {
+		c.W.Event("exchange", M{"step": i + 1, "op": st.Op, "media": mediaName(st.Media), "supplied": []M{}, "setup": false, "err": true, "handled_op": "", "received": []M{},
+			"handler": M{"code": 0, "hdrs": []M{}, "body": ""}, "seen": M{"code": 0, "hdrs": []M{}, "body": ""}, "wire_path": []int{}, "wire_query": []int{}})
 	}
-	b, err := build(cs.API)
-	if err != nil || op == nil {
-		c.W.Event("exchange", M{"op": cs.Op, "supplied": []M{}, "setup": false, "err": true, "handled_op": "", "received": []M{},
-			"handler": M{"code": 0, "hdrs": []M{}, "body": ""}, "seen": M{"code": 0, "hdrs": []M{}, "body": ""}, "wire_path": []int{}, "wire_query": []int{}, "resp_in_scope": false})
+	var b *built
+	var err error
+	if cs.Shared {
+		b, err = build(cs.API)
+	} else {
+		b, err = buildFresh(cs.API, cs.API.doc())
+	}
+	if err != nil {
+		for i, st := range cs.Steps {
+			noEvent(i, st)
+		}
 		return false
 	}
 	s := server()
 	active.mu.Lock()
 	active.h = b.handler
 	active.mu.Unlock()
+	// one Runtime for the whole session
+	rt := client.New(s.Listener.Addr().String(), cs.API.Base, []string{"http"})
+	rt.Consumers["application/octet-stream"] = runtime.ByteStreamConsumer()
+	rt.SetLogger(silentLogger{})
+	nontrivial := false
+	for i := range cs.Steps {
+		st := &cs.Steps[i]
+		var op *Op
+		for j := range cs.API.Ops {
+			if cs.API.Ops[j].ID == st.Op {
+				op = &cs.API.Ops[j]
+			}
+		}
+		if op == nil {
+			noEvent(i, *st)
+			continue
+		}
+		if exchangeOnce(c, rt, i, st, op) {
+			nontrivial = true
+		}
+	}
+	return nontrivial
+}
+
+func exchangeOnce(c *drv.Ctx, rt *client.Runtime, idx int, st *Step, op *Op) bool {
 	cur.mu.Lock()
-	cur.cs, cur.handledOp, cur.received, cur.wirePath, cur.wireQuery = &cs, "", nil, "", ""
+	cur.step, cur.handledOp, cur.received, cur.wirePath, cur.wireQuery = st, "", nil, "", ""
 	cur.handler = M{"code": 0, "hdrs": []M{}, "body": ""}
 	cur.mu.Unlock()
 
 	params := map[string]Param{}
 	for _, p := range op.Params {
+		if p.Loc == "form" { // sent as the media type of this call says
+			p.Loc = "urlform"
+			if st.Media == mMulti {
+				p.Loc = "multiform"
+			}
+		}
 		params[p.Name] = p
 	}
+	var cleanup []string
+	defer func() {
+		for _, dir := range cleanup {
+			_ = os.RemoveAll(dir)
+		}
+	}()
 	supplied := make([]M, 0)
-	type upload struct {
-		name string
-		f    runtime.NamedReadCloser
-	}
 	writer := runtime.ClientRequestWriterFunc(func(r runtime.ClientRequest, _ strfmt.Registry) error {
-		for _, a := range cs.Args {
+		for _, a := range st.Args {
 			p := params[a.Name]
 			switch p.Loc {
 			case "path":
@@ -532,8 +708,16 @@ func execute(c *drv.Ctx, d M) bool {
 			case "urlform", "multiform":
 				_ = r.SetFormParam(a.Name, a.Vs...)
 			case "file":
-				_ = r.SetFileParam(a.Name, runtime.NamedReader(a.FileName, bytes.NewReader(blob(a.Len, a.Seed, false))))
+				f, err := source(a, &cleanup)
+				if err != nil {
+					return err
+				}
+				_ = r.SetFileParam(a.Name, f)
 			case "body":
+				if p.Kind == "strbody" {
+					_ = r.SetBodyParam(a.Vs[0])
+					break
+				}
 				var v any
 				dec := json.NewDecoder(strings.NewReader(a.Body))
 				dec.UseNumber()
@@ -545,13 +729,26 @@ func execute(c *drv.Ctx, d M) bool {
 		}
 		return nil
 	})
-	for _, a := range cs.Args {
+	for _, a := range st.Args {
 		p := params[a.Name]
 		var vs any
-		switch p.Loc {
-		case "file":
-			vs = []any{trace.B(filepath.Base(a.FileName)), trace.B(sha(blob(a.Len, a.Seed, false)))}
-		case "body":
+		off := 0
+		switch {
+		case p.Loc == "file":
+			// the underlying file and the position it is handed over at; of a large file the digest of what remains
+			content := blob(a.Len, a.Seed, false)
+			o := a.Off
+			if o > len(content) {
+				o = len(content)
+			}
+			if len(content) <= smallFile {
+				vs, off = []any{trace.B(filepath.Base(a.FileName)), trace.B(string(content))}, o
+			} else {
+				vs = []any{trace.B(filepath.Base(a.FileName)), contentID(content[o:])}
+			}
+		case p.Kind == "strbody":
+			vs = trace.BB(a.Vs[:1])
+		case p.Loc == "body":
 			var v any
 			dec := json.NewDecoder(strings.NewReader(a.Body))
 			dec.UseNumber()
@@ -560,7 +757,7 @@ func execute(c *drv.Ctx, d M) bool {
 		default:
 			vs = trace.BB(a.Vs)
 		}
-		supplied = append(supplied, M{"name": a.Name, "loc": p.Loc, "kind": p.Kind, "vs": vs})
+		supplied = append(supplied, M{"name": a.Name, "loc": p.Loc, "kind": p.Kind, "vs": vs, "off": off})
 	}
 
 	seen := M{"code": 0, "hdrs": []M{}, "body": ""}
@@ -594,18 +791,17 @@ func execute(c *drv.Ctx, d M) bool {
 			}
 		}
 		hs := make([]M, 0)
-		for _, h := range cs.Resp.Hdrs {
+		for _, h := range st.Resp.Hdrs {
 			k := http.CanonicalHeaderKey(h.K)
 			hs = append(hs, M{"k": k, "vs": trace.BB(resp.GetHeaders(k))})
 		}
 		seen = M{"code": resp.Code(), "hdrs": hs, "body": sha(canon)}
 		return nil, nil
 	})
-	rt := client.New(s.Listener.Addr().String(), cs.API.Base, []string{"http"})
-	rt.Consumers["application/octet-stream"] = runtime.ByteStreamConsumer()
+	rt.Debug = st.Debug
 	cop := &runtime.ClientOperation{ID: op.ID, Method: op.Method, PathPattern: op.path(), ProducesMediaTypes: op.Produces,
-		ConsumesMediaTypes: []string{op.Consumes}, Params: writer, Reader: reader}
-	switch cs.Auth {
+		ConsumesMediaTypes: []string{st.Media}, Params: writer, Reader: reader}
+	switch st.Auth {
 	case "apikey":
 		cop.AuthInfo = client.APIKeyAuth("X-Token", "header", secret)
 	case "signing":
@@ -621,7 +817,7 @@ func execute(c *drv.Ctx, d M) bool {
 		_, callErr = rt.Submit(cop)
 	}()
 	cur.mu.Lock()
-	ev := M{"op": cs.Op, "supplied": supplied, "setup": true, "err": callErr != nil, "handled_op": cur.handledOp, "received": cur.received,
+	ev := M{"step": idx + 1, "op": st.Op, "media": mediaName(st.Media), "supplied": supplied, "setup": true, "err": callErr != nil, "handled_op": cur.handledOp, "received": cur.received,
 		"handler": cur.handler, "seen": seen, "wire_path": trace.B(cur.wirePath), "wire_query": trace.B(cur.wireQuery)}
 	cur.mu.Unlock()
 	if ev["received"] == nil || len(ev["received"].([]M)) == 0 {
@@ -716,6 +912,8 @@ func defaultArg(p Param, i int) Arg {
 		return Arg{Name: p.Name, Body: `[1,"two",{"three":3}]`}
 	case p.Kind == "body":
 		return Arg{Name: p.Name, Body: `{"a":1,"b":["x",2.5,null],"c":"\u00e9"}`}
+	case p.Kind == "strbody":
+		return Arg{Name: p.Name, Vs: []string{"a note"}}
 	case p.Kind == "multi":
 		return Arg{Name: p.Name, Vs: []string{"m1", "m2"}}
 	case p.Type == "integer":
@@ -724,6 +922,25 @@ func defaultArg(p Param, i int) Arg {
 		return Arg{Name: p.Name, Vs: []string{"true"}}
 	}
 	return Arg{Name: p.Name, Vs: []string{"v" + p.Name}}
+}
+
+// mkStep is a call of op: the overridden arguments, defaults for the others.
+func mkStep(op Op, override map[string]Arg, auth string, resp Resp, media string) Step {
+	st := Step{Op: op.ID, Auth: auth, Resp: resp, Media: media}
+	if op.Secured && auth == "none" {
+		st.Auth = "apikey"
+	}
+	for i, p := range op.Params {
+		a, ok := override[p.Name]
+		if !ok {
+			a = defaultArg(p, i)
+		}
+		if p.Kind == "file" && a.Src == "" {
+			a.Src = "reader"
+		}
+		st.Args = append(st.Args, a)
+	}
+	return st
 }
 
 var respCodes = []int{200, 201, 202, 204, 299, 304, 400, 401, 404, 409, 418, 422, 500, 503, 599}
@@ -735,18 +952,7 @@ func generate(c *drv.Ctx) {
 	simpleResp := Resp{Mode: "responder", Code: 200, Len: 20, Seed: 1}
 	emit := func(cs Case) { n++; c.Case(cs.JSON()) }
 	call := func(api API, op Op, override map[string]Arg, auth string, resp Resp) Case {
-		cs := Case{API: api, Op: op.ID, Auth: auth, Resp: resp}
-		if op.Secured && auth == "none" {
-			cs.Auth = "apikey"
-		}
-		for i, p := range op.Params {
-			if a, ok := override[p.Name]; ok {
-				cs.Args = append(cs.Args, a)
-			} else {
-				cs.Args = append(cs.Args, defaultArg(p, i))
-			}
-		}
-		return cs
+		return Case{API: api, Shared: true, Steps: []Step{mkStep(op, override, auth, resp, op.Consumes)}}
 	}
 	bases := []string{"/api", "/", "/api/v1"}
 	// (i) every string parameter of every operation x every value of <=2 atoms (quick: <=1 atom plus a stride of the 2-atom ones)
@@ -843,14 +1049,19 @@ func generate(c *drv.Ctx) {
 			emit(call(api, api.Ops[hi%len(api.Ops)], nil, "none", Resp{Mode: "responder", Code: 200, Len: 5, Seed: hi, Hdrs: []Hdr{{"X-Out", []string{hv, "x" + hv}}}}))
 		}
 	}
+	// (v)-(vii) upload sources at an offset; sessions: media-type sequences on parameter-free operations, sibling templates
+	genSessions(c, emit)
 	c.Extra["exhaustive_cases"] = n
-	// (iv) seeded random
-	nr := 1500
+	// (iv) seeded random: single calls on the shared servers, and sessions on servers of their own
+	nr, ns := 1500, 400
 	if thorough {
-		nr = 40000
+		nr, ns = 40000, 8000
 	}
 	for i := 0; i < nr; i++ {
 		emit(randomCase(c, call))
+	}
+	for i := 0; i < ns; i++ {
+		emit(randomSession(c, call))
 	}
 }
 
@@ -922,7 +1133,9 @@ func randomCase(c *drv.Ctx, call func(API, Op, map[string]Arg, string, Resp) Cas
 	for _, p := range op.Params {
 		switch {
 		case p.Kind == "file":
-			ov[p.Name] = Arg{Name: p.Name, FileName: []string{"a.txt", "dir/b.bin", "x y.dat", "caf\xc3\xa9", "q\"uote"}[r.Intn(5)], Len: []int{0, 1, 100, 512, 5000, 200000}[r.Intn(6)], Seed: r.Intn(1 << 20)}
+			n := []int{0, 1, 30, 100, 512, 5000, 200000}[r.Intn(7)]
+			ov[p.Name] = Arg{Name: p.Name, FileName: []string{"a.txt", "dir/b.bin", "x y.dat", "caf\xc3\xa9", "q\"uote"}[r.Intn(5)], Len: n, Seed: r.Intn(1 << 20),
+				Src: fileSrcs[r.Intn(len(fileSrcs))], Off: []int{0, 0, r.Intn(n + 1)}[r.Intn(3)]}
 		case p.Kind == "body":
 			var v any
 			if p.Type == "array" {
